@@ -405,8 +405,75 @@ static void part_chain(void) {
 	}
 }
 
+/* second use of an asynchronous handle: a handle that was handed back may be submitted again (the documented way to retry).
+ * What the second round yields depends on the second reply only */
+static void part_readd(void) {
+	static const int SECOND[] = {B_HONEST, B_STATUS, B_ERROR_PDU, B_OTHER_HASH, B_BAD_MAC, B_FOREIGN_ID};
+	int tr, first, si;
+	for (tr = 0; tr < 2; tr++) for (first = 0; first < 2; first++) for (si = 0; si < 6; si++) {
+		KSI_CTX *ctx;
+		KSI_AsyncService *svc = NULL;
+		KSI_AsyncHandle *hd = NULL, *out = NULL;
+		KSI_DataHash *hsh = NULL;
+		KSI_Signature *sig = NULL;
+		unsigned char h[RH_MAX_IMPRINT];
+		size_t hl;
+		int round, res = KSI_OK;
+		if (!vf_case_begin("async-readd:tr%d:first-%s:second-%s", tr, first ? "status-error" : "honest", BNAME[SECOND[si]])) continue;
+		ctx = ku_ctx();
+		srv_install(handler, NULL);
+		memset(&S, 0, sizeof S);
+		S.version = 2; S.shape = 1; S.tail = 3;
+		if (KSI_SigningAsyncService_new(ctx, &svc) != KSI_OK) vf_harness_error("async service new");
+		if (KSI_AsyncService_setEndpoint(svc, tr == 0 ? "ksi+tcp://aggr.test:3332" : "ksi+http://aggr.test:8080/gt-signingservice", LOGIN, KEY) != KSI_OK) vf_harness_error("async setEndpoint");
+		KSI_AsyncService_setOption(svc, KSI_ASYNC_OPT_RCV_TIMEOUT, (void *)(size_t)5);
+		hl = ref_fake_imprint(RH_SHA256, 42, h);
+		KSI_DataHash_fromImprint(ctx, h, hl, &hsh);
+		if (KSI_AsyncSigningHandle_new(ctx, hsh, 0, &hd) != KSI_OK) vf_harness_error("handle");
+		for (round = 0; round < 2; round++) {
+			int beh = round == 0 ? (first ? B_STATUS : B_HONEST) : SECOND[si], i, state = 0, err = 0, expect_ok;
+			S.behaviour = beh; S.sub = 0;
+			res = KSI_AsyncService_addRequest(svc, hd);
+			vf_count("impl_calls", 1);
+			if (res != KSI_OK) { vf_fail("readd-refused", "round %d: KSI_AsyncService_addRequest of the %s handle failed 0x%x", round, round ? "returned" : "new", res); KSI_AsyncHandle_free(hd); hd = NULL; break; }
+			out = NULL;
+			for (i = 0; i < 40 && out == NULL; i++) {
+				size_t waiting = 0;
+				res = KSI_AsyncService_run(svc, &out, &waiting);
+				vf_count("impl_calls", 1);
+				if (res != KSI_OK) break;
+				if (out == NULL) sn_now += 1;
+			}
+			if (out != hd) { vf_fail("async-no-completion", "round %d: the handle was not handed back within 40 rounds (res 0x%x, got %p)", round, res, (void *)out); if (out) KSI_AsyncHandle_free(out); hd = NULL; break; }
+			KSI_AsyncHandle_getState(out, &state);
+			KSI_AsyncHandle_getError(out, &err);
+			sig = NULL;
+			res = KSI_AsyncHandle_getSignature(out, &sig);
+			vf_count("impl_calls", 1);
+			expect_ok = beh == B_HONEST;
+			vf_outcome("async-readd:round%d:%s:%s", round, BNAME[beh], res == KSI_OK ? "signature" : "error");
+			if (expect_ok) {
+				KSI_DataHash *dh = NULL;
+				if (state != KSI_ASYNC_STATE_RESPONSE_RECEIVED || res != KSI_OK || sig == NULL) vf_fail("honest-reply-rejected", "round %d: honest reply but state %d error 0x%x getSignature 0x%x", round, state, err, res);
+				else if (KSI_Signature_getDocumentHash(sig, &dh) != KSI_OK || !ku_hash_eq(dh, h, hl)) vf_fail("result-other-hash", "round %d: signature for another hash", round);
+			} else if (res == KSI_OK || sig != NULL) {
+				vf_fail("success-on-deviant-reply", "round %d: the reply of this round was '%s' (state %d, error 0x%x) but KSI_AsyncHandle_getSignature returned a signature%s", round, BNAME[beh], state, err, round ? " - the one left from the first round" : "");
+			}
+			KSI_Signature_free(sig); sig = NULL;
+		}
+		KSI_AsyncHandle_free(hd);
+		KSI_AsyncService_free(svc);
+		KSI_CTX_free(ctx);
+		rp_req_free(&S.last);
+		memset(&S.last, 0, sizeof S.last);
+		if (vf_alloc_live != 0) { vf_fail("leak", "%ld SDK allocations still live after freeing the context", vf_alloc_live); vf_alloc_live = 0; }
+		vf_case_end(1);
+	}
+}
+
 static void run(void) {
 	part_sha1();
+	part_readd();
 	part_chain();
 	part_main();
 }
